@@ -951,6 +951,77 @@ theorem T_C08_arc3_translation_real (pS pB pE t : Vec ℝ) :
   unfold arc3LengthR arc3LengthAt
   rw [hc, hs, hs, hs]
 
+/-- **The reported length does not depend on the orientation of the arc in space** (over ℝ): under any linear isometry `Q` (rotation,
+    reflection) applied to the three points the computed centre is mapped by `Q` and `arc_length_3point` is unchanged — the centre and the
+    side test are functions of dot products of differences only.  With `T_C08_arc3_translation_real`: the length depends only on the
+    circle and the position of the points on it, not on where or how the circle lies in space. -/
+theorem T_C08_arc3_isometry_real (Q : Vec ℝ → Vec ℝ) (hQ : LinIso Q) (pS pB pE : Vec ℝ) :
+    arc3Centre (Q pS) (Q pB) (Q pE) = Q (arc3Centre pS pB pE) ∧
+    arc3LengthR (Q pS) (Q pB) (Q pE) = arc3LengthR pS pB pE := by
+  have hn : ∀ v, nsq (Q v) = nsq v := fun v => hQ.map_dot v v
+  have hden : arc3Denom (Q pS) (Q pB) (Q pE) = arc3Denom pS pB pE := by
+    unfold arc3Denom
+    simp only [← hQ.map_sub, hn, hQ.map_dot]
+  have hc : arc3Centre (Q pS) (Q pB) (Q pE) = Q (arc3Centre pS pB pE) := by
+    rw [arc3Centre_dotform, arc3Centre_dotform, hden]
+    simp only [← hQ.map_sub, hn, hQ.map_dot]
+    simp only [hQ.map_add, hQ.map_smul, hQ.map_sub]
+  refine ⟨hc, ?_⟩
+  unfold arc3LengthR arc3LengthAt arc3AngleR
+  rw [hc]
+  simp only [arc3SideTest_dotform, ← hQ.map_sub, hn, hQ.map_dot]
+
+/-- non-vacuity: the quarter turn about the z-axis and the reflection in the x-y plane are linear isometries -/
+example : LinIso (fun v : Vec ℝ => ⟨-v.y, v.x, v.z⟩) ∧ LinIso (fun v : Vec ℝ => ⟨v.x, v.y, -v.z⟩) := by
+  constructor <;> constructor <;> intros <;> first
+    | (apply Vec.ext' <;> simp only [add, sub, smul] <;> ring)
+    | (simp only [dot]; ring)
+
+/-! ### round 6d: `ArcEdgeBase.length` — a valid arc edge is always accepted by `arc_length_3point` -/
+
+/-- the denominator of `arc_length_3point(v1, third, v2)` is the squared collinearity measure of `ArcEdgeBase.is_valid`:
+    `denom = |cross(arm_1, arm_2)|²` (both are twice the triangle's area, squared) -/
+theorem T_C08_denom_valid (p1 p2 M : Vec K) : arc3Denom p1 M p2 = nsq (validCross p1 p2 M) := by
+  simp only [arc3Denom, validCross, nsq, dot, cross, sub]; ring
+
+/-- hence, in the executable model: a valid arc edge (`|cross(arm_1, arm_2)| > TOL`) never runs into the `ValueError` of
+    `arc_length_3point` (`denom > TOL² > 1e-18`), so `ArcEdgeBase.length` is defined for every arc edge — the arc length when
+    valid, the chord otherwise -/
+theorem T_C08_valid_accepted (p1 p2 M : V) (h : arcValid p1 p2 M = true) :
+    (arc3 p1 M p2).isSome = true ∧ (arcEdgeLength p1 p2 M).isSome = true := by
+  have hv : nsq (validCross p1 p2 M) > tol * tol := by
+    unfold arcValid at h
+    simp only [Bool.and_eq_true, decide_eq_true_eq] at h
+    exact h.2
+  have hden : arc3Denom p1 M p2 = nsq (validCross p1 p2 M) := T_C08_denom_valid p1 p2 M
+  have hte : arc3Eps < tol * tol := by unfold arc3Eps tol; decide +kernel
+  have hpos : (0 : Rat) < arc3Eps := by unfold arc3Eps; decide +kernel
+  have hnot : ¬ (absR (arc3Denom p1 M p2) < arc3Eps) := by
+    have hd : arc3Eps < arc3Denom p1 M p2 := by rw [hden]; exact lt_trans hte hv
+    have : ¬ (arc3Denom p1 M p2 < 0) := not_lt.mpr (le_of_lt (lt_trans hpos hd))
+    unfold absR; rw [if_neg this]; exact not_lt.mpr (le_of_lt hd)
+  have h3 : (arc3 p1 M p2).isSome = true := by
+    unfold arc3
+    simp only [hnot, if_false, Option.isSome_some]
+  refine ⟨h3, ?_⟩
+  unfold arcEdgeLength
+  rw [if_pos h, Option.isSome_map]
+  exact h3
+
+example : arcValid (⟨1, 0, 0⟩ : V) ⟨-1, 0, 0⟩ ⟨0, 1, 0⟩ = true := by decide +kernel
+
+/-- **Every arc edge is at least as long as its chord**, over ℝ, both branches of `ArcEdgeBase.length`: the chord itself when the edge is
+    not valid, and `arc_length_3point ≥ chord` (`T_C08_arc3_chord_real`) when it is (a valid edge has `denom ≠ 0` by `T_C08_denom_valid`). -/
+theorem T_C08_edge_length_chord_real (valid : Bool) (p1 p2 M : Vec ℝ) (hv : valid = true → nsq (validCross p1 p2 M) ≠ 0) :
+    Real.sqrt (nsq (sub p2 p1)) ≤ (if valid then arc3LengthR p1 M p2 else Real.sqrt (nsq (sub p1 p2))) := by
+  cases valid with
+  | false =>
+      simp only [Bool.false_eq_true, if_false]
+      apply le_of_eq; congr 1; simp only [nsq, dot, sub]; ring
+  | true =>
+      simp only [if_true]
+      exact T_C08_arc3_chord_real p1 M p2 (by rw [T_C08_denom_valid]; exact hv rfl)
+
 /-! ### round 6: tie to the source text (tables regenerated by `cbv/tables/c08.py` with `ast` on every run)
 
 The translator normalises the source first: docstrings, comments, annotations dropped, parameters (other than `self`) and locals
